@@ -160,9 +160,6 @@ def vr53(msg: str) -> Optional[int]:
     sign = int(d[47])  # 1 -> negative value, two's complement
     value = common.bin2int(d[48:56])
 
-    if value == 0 or value == 255:  # all zeros or all ones
-        return 0
-
     value = value - 256 if sign else value
     roc = value * 64  # feet/min
 
